@@ -49,6 +49,9 @@ PROGRAMS.append({"id": "m_nosrc", "text": _NS, "values": {"c": "x = 1\\ny = [x, 
                                                          "m": "verifnosrc_{v}"}})
 PROGRAMS.append({"id": "m_frozen", "text": _NS, "values": {"c": "x = 1\\ny = [x, 2.5]\\n", "e": "'x = 1' + linesep + 'y = [x, 2.5]' + linesep",
                                                           "m": "__hello__"}})
+# the FILE source given as a stream (/dev/stdin fed by a pipe): it can be read only once
+PROGRAMS.append({"id": "file_stdin", "text": _NS, "stdin": True,
+                 "values": {"c": "x = 1\\ny = [x, 2.5]\\n", "e": "'x = 1' + linesep + 'y = [x, 2.5]' + linesep", "m": "verifmod_file_stdin"}})
 # two sources given the IDENTICAL string are still two sources
 PROGRAMS.append({"id": "same_c_e", "text": "pass\n", "values": {"c": "'pass'", "e": "'pass'", "m": "verifmod_same_c_e"}})
 PROGRAMS.append({"id": "same_c_m", "text": "x = 1\n", "values": {"c": "verifmod_same_c_m", "e": "'x = 1'", "m": "verifmod_same_c_m"}})
@@ -123,6 +126,10 @@ def run(tier: str, rep: Report):
             for p in PROGRAMS:
                 vals = source_values(p, wd, v)
                 for k in ("file", "c", "e", "m"):
+                    if k == "file" and p.get("stdin"):
+                        exp[(v, p["id"], k)] = w.req("cli.expected", kind="file", value=str(wd / f"prog_{p['id']}.py"),
+                                                     modpath=str(moddir), filename="/dev/stdin")
+                        continue
                     exp[(v, p["id"], k)] = w.req("cli.expected", kind=k, value=vals[k], modpath=str(moddir))
     finally:
         pool.close()
@@ -148,7 +155,8 @@ def run(tier: str, rep: Report):
         env = dict(os.environ, PYTHONPATH=f"{REPO}:{HARNESS / 'shim'}:{moddir}", PYTHONDONTWRITEBYTECODE="1", PYTHONHASHSEED="0",
                    PYTHONIOENCODING="utf-8")
         pr = subprocess.run([str(INTERP[v]), "-X", "utf8", "-c", "from code_data._cli import main; main()", *argv],
-                            capture_output=True, text=True, env=env, timeout=120, cwd=str(wd))
+                            capture_output=True, text=True, env=env, timeout=120, cwd=str(wd),
+                            input=p["text"] if (p.get("stdin") and "file" in o["src"]) else None)
         sp = split_output(pr.stdout)
         e = {"id": f"cli:{v}:{oi}:{p['id']}", "ver": v, "src": o["src"], "flags": o["flags"], "exit": pr.returncode,
              "printed_data": sp["printed_data"], "data_is_norm": False, "data_is_raw": False, "has_json": sp["has_json"],
@@ -212,7 +220,8 @@ def canon(x):
 def source_values(p, wd, v=""):
     text = p["text"]
     if "values" in p:
-        return dict({k: x.replace("{v}", v) for k, x in p["values"].items()}, file=str(wd / f"prog_{p['id']}.py"))
+        return dict({k: x.replace("{v}", v) for k, x in p["values"].items()},
+                    file="/dev/stdin" if p.get("stdin") else str(wd / f"prog_{p['id']}.py"))
     return {
         "file": str(wd / f"prog_{p['id']}.py"),
         "c": text.replace("\\", "\\\\").replace("\n", "\\n") if "\\" not in text else text.replace("\n", "\\n"),
